@@ -9,13 +9,84 @@ pub struct C13;
 
 const BOX: &str = "+--+\n|ab|\n+--+";
 
+impl C13 {
+    fn judge_with_context(&self, cx: &mut Cx, input: &str, context_only: &str, desc: &str, i: usize) {
+        let d = match cx.conv_doc(input, &Sett::bare()) {
+            Some(d) => d,
+            None => return,
+        };
+        let od = match cx.conv_doc(context_only, &Sett::bare()) {
+            Some(d) => d,
+            None => return,
+        };
+        cx.compared();
+        let circles: Vec<_> = d.of(Kind::Circle).collect();
+        let others: Vec<svg::El> = d.elems.iter().filter(|e| e.kind != Kind::Circle).cloned().collect();
+        if circles.len() != 1 {
+            cx.fail("not-one-circle", format!("{}: {} circle elements; output [{}]\n{}", desc, circles.len(), d.elems.iter().take(8).map(|e| e.brief()).collect::<Vec<_>>().join(" ; "), input));
+            return;
+        }
+        let (a, b) = svg::multiset_diff(&od.elems, &others, 1e-6);
+        if !a.is_empty() || !b.is_empty() {
+            cx.fail("context-changed", format!("{}: the unrelated content renders differently next to the circle: missing [{}] extra [{}]\n{}", desc,
+                a.iter().take(4).map(|e| e.brief()).collect::<Vec<_>>().join(" ; "), b.iter().take(4).map(|e| e.brief()).collect::<Vec<_>>().join(" ; "), input));
+            return;
+        }
+        cx.outcome(&(i, desc.len() % 7, "ctx"));
+    }
+
+    fn check_left_label(&self, cx: &mut Cx, art: &str, ox: usize, oy: usize, ascii: bool, i: usize) {
+        let label = if ascii { "ab" } else { "一二" };
+        let lw = enumr::display_cols(label);
+        let (_w, h) = enumr::extent(art);
+        let mid = h / 2;
+        let mut rows: Vec<String> = enumr::shift(art, ox + lw + 2, oy).split('\n').map(|s| s.to_string()).collect();
+        let mut ctx_rows: Vec<String> = rows.iter().map(|_| String::new()).collect();
+        let r = oy + mid;
+        let line = rows[r].clone();
+        let rest: String = line.chars().skip(lw + 0).collect();
+        rows[r] = format!("{}{}", label, &rest[lw.min(rest.len())..].to_string());
+        // simpler and exact: rebuild the row as label + blanks + the drawing's part
+        let art_row: String = art.split('\n').nth(mid).unwrap_or("").to_string();
+        rows[r] = format!("{}{}{}", label, " ".repeat(ox + 2), art_row);
+        ctx_rows[r] = label.to_string();
+        let desc = format!("catalogue circle #{} at ({},{}) with the label {:?} two columns to its left", i, ox + lw + 2, oy, label);
+        self.judge_with_context(cx, &rows.join("\n"), &ctx_rows.join("\n"), &desc, i);
+    }
+
+    fn check_word_above(&self, cx: &mut Cx, art: &str, ox: usize, oy: usize, variant: usize, i: usize) {
+        // the word "word" ends at column (first top-row cell + delta), delta in -3..=2, one or two blank rows above the drawing
+        let delta = (variant % 6) as i64 - 3;
+        let blank_rows = 1 + variant / 6;
+        let first_top = art.split('\n').next().unwrap_or("").chars().take_while(|c| *c == ' ').count();
+        let end_col = (ox + 5 + first_top) as i64 + delta;
+        if end_col < 4 {
+            return;
+        }
+        let start = (end_col - 4) as usize + 1;
+        let mut rows: Vec<String> = vec![format!("{}word", " ".repeat(start))];
+        for _ in 0..blank_rows {
+            rows.push(String::new());
+        }
+        let n_above = rows.len();
+        rows.extend(enumr::shift(art, ox + 5, 0).split('\n').map(|s| s.to_string()));
+        let mut full: Vec<String> = vec![String::new(); oy];
+        full.extend(rows);
+        let mut ctx: Vec<String> = vec![String::new(); oy];
+        ctx.push(format!("{}word", " ".repeat(start)));
+        let _ = n_above;
+        let desc = format!("catalogue circle #{} with a word ending {} columns from its first top cell, {} blank row(s) above it", i, delta, blank_rows);
+        self.judge_with_context(cx, &full.join("\n"), &ctx.join("\n"), &desc, i);
+    }
+}
+
 impl Prop for C13 {
     fn id(&self) -> &'static str {
         "C13"
     }
     fn rule(&self) -> &'static str {
         "the 22 documented circle drawings (fixed copy in /verif/catalog, compared with the live table) x offsets 0..8 x 0..6 plus three far corners (thorough: all 0..60 x 0..40) \
-         x {alone, with a box two columns to the right, with a line of text two rows below}: exactly one circle and nothing else for the drawing; cx-r / cx+r = the drawing's horizontal extent; \
+         x {alone, with a box two columns to the right, with a line of text two rows below, with an ASCII / double-width label to the left on its middle row, with a word above it ending at each of 6 columns around its first cell with 1 or 2 blank rows between}: exactly one circle and nothing else for the drawing; cx-r / cx+r = the drawing's horizontal extent; \
          r = (n-1)/2 cells (n/2 when the left-most cell is a slash); every character cell intersects the annulus of half-width 1.25 cell widths; the unrelated content renders as it does alone. \
          distinct_nontrivial = distinct (catalogue entry, context) outcomes that produced a circle"
     }
@@ -47,7 +118,7 @@ impl Prop for C13 {
                 let n = shapes::catalog().len();
                 for i in 0..n {
                     for &(x, y) in &offs {
-                        for ctx in 0..3 {
+                        for ctx in 0..(3 + 2 + 12) {
                             f(Case::sn("", vec![i as i64, x as i64, y as i64, ctx]));
                         }
                     }
@@ -95,6 +166,14 @@ impl Prop for C13 {
             2 => {
                 let (j, off) = enumr::below(&placed, "some text", 1);
                 (j, Some("some text"), 0, off)
+            }
+            3 | 4 => {
+                // a double-width label to the left of the drawing, on its middle row, two columns away
+                return self.check_left_label(cx, art, ox, oy, ctx == 4, i);
+            }
+            5..=16 => {
+                // a word above the drawing (one or two blank rows between), ending at every column around the drawing's first top-row cell
+                return self.check_word_above(cx, art, ox, oy, (ctx - 5) as usize, i);
             }
             _ => (placed, None, 0, 0),
         };
